@@ -227,6 +227,8 @@ class Interp:
         self.block_hooks = {}
         self.typed_unknown = None
         self.fn_full = {}
+        self.ptr_metadata = None       # optional: length of an abstract slice (strmodel)
+        self.opaque_cindex = None      # optional: constant-index element of an abstract slice (strmodel)
         self.opaque_index = None       # optional resolver for `slice[i]` places on abstract slices (loader)
         self.hooks_any_depth = False   # block hooks fire in callee frames too (loops inside helper functions)
         self.opaque_stores = []
@@ -305,7 +307,13 @@ class Interp:
             elif k == "cindex":
                 if pr["from_end"]:
                     raise InterpError("cindex from_end")
-                path = path + (pr["off"],)
+                basev_ = self.read_loc(st, root, path) if self.opaque_cindex is not None else None
+                r_ = self.opaque_cindex(st, basev_, pr["off"]) if isinstance(basev_, Opaque) else None
+                if r_ is not None:
+                    root, path = ("tmpval", st.count("tmpval")), ()
+                    st.mem[root] = r_
+                else:
+                    path = path + (pr["off"],)
             else:
                 path = path + (Opaque("proj:" + k),)
         return root, path
@@ -617,6 +625,11 @@ class Interp:
                         return Int(bv.const(tgt.n, 64))
                     if isinstance(tgt, Agg):
                         return Int(bv.const(len(tgt.fields), 64))
+                    v = tgt
+                if self.ptr_metadata is not None:
+                    r_ = self.ptr_metadata(st, v)
+                    if r_ is not None:
+                        return r_
                 return Opaque("len")
             return Opaque("unop")
         if k == "discr":
